@@ -21,6 +21,7 @@ def run(rep, tier):
                          '(not before start); _PositionInfo(start, end) of positions built from one index'),
         ('SPAN-convert-once', 'only raw spans are converted (objects finalised by a nested parse are left alone)'),
         ('TABLE-index', 'guarded table lookups'), ('TABLE-whole-text', 'tables from the whole text'),
+        ('TABLE-per-call', 'tables computed from the text of the call, not taken from a longer-lived store'),
         ('LINECOL-map', 'the tables have one entry per element; only a line feed starts a line; columns count from 1'),
         ('SPAN-writers', 'position_info is stored only by Seq._compile and _finalize_parse_info'),
     ]:
@@ -39,7 +40,8 @@ def run(rep, tier):
         rep.obligations += n
         rep.discharged += n - len(found)
         for rule, msg in found:
-            if rule in ('SPAN-convert', 'SPAN-convert-once', 'TABLE-index', 'TABLE-whole-text', 'LINECOL-map'):
+            if rule in ('SPAN-convert', 'SPAN-convert-once', 'TABLE-index', 'TABLE-whole-text', 'LINECOL-map',
+                        'TABLE-per-call'):
                 rep.add(Finding(rule, f'{rel}:runtime', '', msg, f'{rel} ({what})'))
         for rule, msg in vfound:
             if rule in ('C15-dedup', 'C15-dedup-identity', 'C15-visit-yield', 'C15-children'):
